@@ -30,6 +30,7 @@ type Loaded struct {
 	immut     map[*ssa.Global]bool
 	allTypes  map[string]*types.Package
 	funcs     map[string]*ssa.Function
+	wrappers  map[string]*ssa.Function // synthetic (*T).M wrappers around value-receiver methods, by key
 }
 
 // contractFiles lists /repo/**/zz_contracts_verif.go with their package import path.
@@ -115,7 +116,7 @@ func loadPackages(repo string, cs *Contracts, pkgPaths []string) (*Loaded, error
 	}
 	prog, spkgs := ssautil.Packages(pkgs, ssa.GlobalDebug)
 	L := &Loaded{repo: repo, fset: pkgs[0].Fset, pkgs: pkgs, prog: prog, spkgs: map[string]*ssa.Package{}, contracts: cs,
-		immut: map[*ssa.Global]bool{}, allTypes: map[string]*types.Package{}, funcs: map[string]*ssa.Function{}}
+		immut: map[*ssa.Global]bool{}, allTypes: map[string]*types.Package{}, funcs: map[string]*ssa.Function{}, wrappers: map[string]*ssa.Function{}}
 	L.sizes = pkgs[0].TypesSizes
 	if L.sizes == nil {
 		L.sizes = types.SizesFor("gc", "amd64")
@@ -152,6 +153,12 @@ func loadPackages(repo string, cs *Contracts, pkgPaths []string) (*Loaded, error
 					for i := 0; i < ms.Len(); i++ {
 						if f := prog.MethodValue(ms.At(i)); f != nil && f.Synthetic == "" {
 							L.indexFn(f)
+						} else if f != nil && strings.HasPrefix(f.Synthetic, "wrapper for") && f.Blocks != nil {
+							// (*T).M promoted from a value-receiver method (T).M: a contract written for the pointer
+							// method is checked against this wrapper (load *recv, call (T).M on the copy)
+							if _, ok := L.funcs[f.String()]; !ok {
+								L.wrappers[f.String()] = f
+							}
 						}
 					}
 				}
